@@ -53,8 +53,12 @@ func faultdecodeBody(s *simrt.Sim) {
 // workload with their own signatures.
 
 func maporderBody(s *simrt.Sim) {
-	if s.Choose(8) == 7 {
+	switch s.Choose(16) {
+	case 14, 15:
 		somapRoundtrip(s)
+		return
+	case 13:
+		oversize(s, false)
 		return
 	}
 	// entries with maps are preferred
@@ -156,6 +160,10 @@ func jsonEqual(a, b []byte) bool {
 // dimension: a pure comparison on generated values.
 
 func refencBody(s *simrt.Sim) {
+	if s.Choose(16) == 15 {
+		oversize(s, true)
+		return
+	}
 	e := zoo[s.Choose(len(zoo))]
 	orig, want, ref := genCase(s, e)
 	s.Logf("type=%s ref(%d)=%x", e.name, len(ref.b), clip(ref.b))
@@ -260,5 +268,62 @@ func somapRT[V any](s *simrt.Sim, kind string, genV func() V, eq func(a, b V) bo
 	})
 	if i != len(keys) {
 		s.Fail("serix-roundtrip", "value:somap-"+kind, "decoded map has %d entries, encoded were %d", i, len(keys))
+	}
+}
+
+// oversize: values whose length sits at the limit of what their length prefix can express (uint16: 65535). Up to the
+// limit the value is encoded with the documented layout and decodes to itself; beyond it no output can carry the
+// length, so Encode has to refuse - an accepted value whose prefix does not say its length is reported under the
+// caller's oracle (C01: the round trip breaks; C03: the output is not the documented layout).
+func oversize(s *simrt.Sim, forward bool) {
+	n := 65533 + s.Choose(6) // 65533 .. 65538
+	validate := s.Choose(2) == 1
+	asString := s.Choose(2) == 1
+	payload := make([]byte, n)
+	for i := range payload {
+		payload[i] = 'a' + byte(i%23)
+	}
+	var obj any = Blob(payload)
+	kind := "blob"
+	if asString {
+		obj, kind = PName(payload), "pname"
+	}
+	var b []byte
+	var err error
+	if panicked, pv := hx.Try(func() {
+		s.Atomic(func() { b, err = api.Encode(ctx, obj, valOpts(validate)...) })
+	}); panicked {
+		s.Fail("serix-roundtrip", "panic:Encode:oversize-"+kind, "Encode of a %d-byte %s panicked: %v", n, kind, pv)
+	}
+	s.Logf("oversize kind=%s n=%d validate=%v -> %d bytes err=%v", kind, n, validate, len(b), err)
+	fits := n <= 65535
+	if err != nil {
+		if fits {
+			s.Fail("encode-accepts", "Encode:oversize-"+kind, "Encode(validate=%v) rejected a %d-byte %s although a uint16 prefix can express that length: %v", validate, n, kind, err)
+		}
+		s.Probe("length-beyond-prefix-range-rejected")
+		return
+	}
+	want := append([]byte{byte(n), byte(n >> 8)}, payload...)
+	if forward {
+		if !fits || !bytes.Equal(b, want) {
+			s.Fail("wire-format", "oversize-"+kind+":len", "Encode(validate=%v) accepted a %d-byte %s and wrote %d bytes starting %x: a uint16 length prefix followed by the payload is %d bytes starting %x (and cannot express more than 65535)", validate, n, kind, len(b), clip(b), len(want), clip(want))
+		}
+		return
+	}
+	// round trip
+	var got []byte
+	var m int
+	if asString {
+		var out PName
+		s.Atomic(func() { m, err = api.Decode(ctx, b, &out, valOpts(validate)...) })
+		got = []byte(out)
+	} else {
+		var out Blob
+		s.Atomic(func() { m, err = api.Decode(ctx, b, &out, valOpts(validate)...) })
+		got = out
+	}
+	if err != nil || m != len(b) || !bytes.Equal(got, payload) {
+		s.Fail("serix-roundtrip", "value:oversize-"+kind, "Encode(validate=%v) accepted a %d-byte %s (%d bytes out); Decode returned n=%d err=%v and a value of %d bytes", validate, n, kind, len(b), m, err, len(got))
 	}
 }
